@@ -64,11 +64,17 @@ impl<M: MovingAverageConstructor> IndicatorConfig for AwesomeOscillator<M> {
 		let cfg = self;
 		let src = candle.source(cfg.source);
 
+		let mut ma1 = cfg.ma1.init(src)?;
+		let mut ma2 = cfg.ma2.init(src)?;
+
+		// the reversal detector watches `ma2 - ma1`, so it starts from that value (which is zero only up to rounding)
+		let value = ma2.next(&src) - ma1.next(&src);
+
 		Ok(Self::Instance {
-			ma1: cfg.ma1.init(src)?,
-			ma2: cfg.ma2.init(src)?,
+			ma1,
+			ma2,
 			cross_over: Cross::default(),
-			reverse: Method::new((cfg.left, cfg.right), &0.0)?,
+			reverse: Method::new((cfg.left, cfg.right), &value)?,
 			low_peaks: 0,
 			high_peaks: 0,
 			cfg,
